@@ -486,7 +486,18 @@ class Harness(object):
         if self.stats.get('tx_failures', 0) != tx_before or not self.in_session:
             return None
         depth = self.program.get('snap', 0) if 'C13' in self.props else 0
-        before = self.snapshot(depth) if 'C13' in self.props else None
+        before = None
+        if 'C13' in self.props:
+            exp_, why_ = self.expect_flush()
+            try:
+                before = self.snapshot(depth)
+            except (Fail, Abort):
+                raise
+            except Exception as e:
+                if self.is_fatal(e):       # reading an unloaded attribute auto-flushed and the flush failed
+                    self.after_write_failure(e, exp_, why_, 'auto-flush in read')
+                    return None
+                raise
         pending_before = self.pending_collection_state() if 'C13' in self.primary else None
         internals_ok_before = False
         if 'C13' in self.primary or 'C11' in self.primary:
